@@ -62,7 +62,14 @@ func (p *regExpParser) scan() {
 		switch p.chr {
 		case '\\':
 			p.read()
+			boundary := p.chr == 'b' || p.chr == 'B'
 			p.scanEscape(false)
+			if boundary {
+				p.scanAssertionEnd()
+			}
+		case '^', '$':
+			p.pass()
+			p.scanAssertionEnd()
 		case '(':
 			p.pass()
 			p.scanGroup()
@@ -101,7 +108,14 @@ func (p *regExpParser) scanGroup() {
 		switch p.chr {
 		case '\\':
 			p.read()
+			boundary := p.chr == 'b' || p.chr == 'B'
 			p.scanEscape(false)
+			if boundary {
+				p.scanAssertionEnd()
+			}
+		case '^', '$':
+			p.pass()
+			p.scanAssertionEnd()
 		case '(':
 			p.pass()
 			p.scanGroup()
@@ -120,6 +134,22 @@ func (p *regExpParser) scanGroup() {
 		return
 	}
 	p.pass()
+}
+
+// scanAssertionEnd rejects a quantifier after ^ $ \b \B: a Term that is an Assertion takes none
+// (ES5 15.10.1), while re2 would repeat the empty match.
+func (p *regExpParser) scanAssertionEnd() {
+	switch p.chr {
+	case '*', '+', '?':
+	case '{':
+		if _, _, length := quantifierBounds(p.str[p.chrOffset:]); length == 0 {
+			return
+		}
+	default:
+		return
+	}
+	p.error(-1, "Nothing to repeat")
+	p.invalid = true
 }
 
 // quantifierBounds returns the two bounds of a quantifier {n} {n,} {n,m} at the start of str
